@@ -313,13 +313,19 @@ func builtinJSONStringifyWalk(ctx builtinJSONStringifyContext, key string, holde
 			} else {
 				// Go maps are without order, so this doesn't conform to the ECMA ordering
 				// standard, but oh well...
+				// The list of keys is taken first (15.12.3 JO step 6): a toJSON or a
+				// replacer may add or delete properties during the walk.
+				var names []string
 				objHolder.enumerate(false, func(name string) bool {
+					names = append(names, name)
+					return true
+				})
+				for _, name := range names {
 					value, exists := builtinJSONStringifyWalk(ctx, name, objHolder)
 					if exists {
 						obj[name] = value
 					}
-					return true
-				})
+				}
 			}
 			return obj, true
 		}
